@@ -13,7 +13,7 @@ mkdir -p /verif/seeded/$id
 {
 echo "== $(date -u) repo HEAD $(git -C /repo log --format=%h -1)"
 cd "$wt"
-cp "$out/$demo" "$wt/$dest"
+mkdir -p "$(dirname "$wt/$dest")"; cp "$out/$demo" "$wt/$dest"
 echo "== demo WITHOUT the change (must pass)"
 rm -rf app/server/gateway/data; go test -vet=off -count=1 -run "$run" "$pkg" 2>&1 | tail -5; r0=${PIPESTATUS[0]}
 echo "== apply patch"
@@ -21,9 +21,9 @@ git apply "$out/patch.diff" || { echo "PATCH DOES NOT APPLY"; exit 3; }
 go build ./... || { echo "BUILD FAILS"; exit 3; }
 echo "== demo WITH the change (must fail)"
 rm -rf app/server/gateway/data; go test -vet=off -count=1 -run "$run" "$pkg" 2>&1 | tail -15; r1=${PIPESTATUS[0]}
-rm -f "$wt/$dest"
+rm -f "$wt/$dest"; ls "$(dirname "$wt/$dest")"/*.go >/dev/null 2>&1 || { rmdir "$(dirname "$wt/$dest")" 2>/dev/null; pkg=""; }
 echo "== existing tests of touched packages WITH the change (must pass)"
-rm -rf app/server/gateway/data; go test -vet=off -count=1 "$pkg" "$@" 2>&1 | grep -E "^(ok|FAIL|---)" | head -20; r2=${PIPESTATUS[0]}
+rm -rf app/server/gateway/data; go test -vet=off -count=1 $pkg "$@" 2>&1 | grep -E "^(ok|FAIL|---)" | head -20; r2=${PIPESTATUS[0]}
 echo "RESULT demo_without=$r0 demo_with=$r1 existing_with=$r2"
 } > "$log" 2>&1
 cp "$out/patch.diff" "$out/$demo" "$out/NOTES.md" /verif/seeded/$id/ 2>/dev/null
